@@ -32,6 +32,7 @@ class GenCfg:
     cond_tags: tuple = ("In1", "In2", "Temp")
     always_terminate_blocks: bool = True
     macros_max: int = 2
+    pause_durs: tuple = (0.1, 0.2, 0.3, 0.5)   # durations of method-issued Pause/Hold; None = without duration
 
 
 def _weighted(kinds: dict):
@@ -91,7 +92,7 @@ def node(draw, cfg: GenCfg, depth: int, in_block: bool, in_interrupt: bool, macr
     elif k == "wait":
         n["d"] = draw(DUR.filter(lambda x: x <= cfg.wait_max))
     elif k in ("pause", "hold"):
-        n["d"] = draw(st.sampled_from([0.1, 0.2, 0.3, 0.5]))
+        n["d"] = draw(st.sampled_from(list(cfg.pause_durs)))
     elif k == "runcounter":
         n["v"] = draw(st.integers(0, 5))
     elif k == "simulate":
@@ -194,7 +195,7 @@ def render(tree: dict, id_prefix: str = "n") -> list[Line]:
             elif k == "wait":
                 emit("Wait: %ss" % _fmt(n["d"]), k, None, depth, parent, n, thr=t)
             elif k in ("pause", "hold"):
-                emit("%s: %ss" % (k.capitalize(), _fmt(n["d"])), k, None, depth, parent, n, thr=t)
+                emit(k.capitalize() if n.get("d") is None else "%s: %ss" % (k.capitalize(), _fmt(n["d"])), k, None, depth, parent, n, thr=t)
             elif k == "info":
                 emit("Info: i%d" % N, k, "i%d" % N, depth, parent, n, thr=t)
             elif k == "notify":
